@@ -72,6 +72,13 @@ func (l *Log) addIf(cond func() bool, line string) {
 	}
 }
 
+// touch records activity of the scenario driver itself.
+func (l *Log) touch() {
+	l.mu.Lock()
+	l.lastAt = time.Now()
+	l.mu.Unlock()
+}
+
 // addIfQuiet is addIf with a caller-chosen quiet period.
 func (l *Log) addIfQuiet(cond func() bool, line string, quiet time.Duration) {
 	l.mu.Lock()
